@@ -60,7 +60,9 @@ func (c *Ctx) lockFactsFor(f *ssa.Function) *lockFacts {
 		return isCall(e, fnParseTags) && e.Idx == 0 && exprIs(arg(e, 0), l.secretParam+".Data.Tags")
 	}
 	tagField := func(e *Ex, name string) bool { return isField(e, name) && l.tags(e.Args[0]) }
-	isNow := func(e *Ex) bool { return e != nil && strings.Contains(e.String(), "time.Now()") && strings.Contains(e.String(), "Unix") }
+	isNow := func(e *Ex) bool {
+		return e != nil && strings.Contains(e.String(), "time.Now()") && strings.Contains(e.String(), "Unix")
+	}
 	l.locktimeSet = &Cond{Name: "locktime > 0", Match: func(ft *Fact, _ *Origins) bool {
 		return ft.Kind == "cmp" && ft.Pos && ft.Op.String() == "<" && isConst(ft.A, "0") && tagField(ft.B, "Locktime")
 	}}
